@@ -191,7 +191,77 @@ pub fn gen_multi_answer(r: &mut Rng) -> (MProgram, Vec<(MGoal, Vec<usize>)>) {
             p.impls.push(MImpl { head: MPred::new("T3", vec![MTy::nullary(names[d.min(3)])]), positive: true, ..Default::default() });
         }
     }
+    // non-linear heads: an impl that only identifies two positions with each other, declared before / between / after
+    // impls that fill the same positions differently; a relation that is reflexive by one impl and has one odd pair
+    let nonlinear = r.chance(50);
+    if nonlinear {
+        p.traits.push(MTrait { name: "T4".into(), ..Default::default() });
+        p.traits.push(MTrait { name: "T5".into(), nparams: 1, ..Default::default() });
+        let mut hs: Vec<(usize, MTy)> = vec![(1, MTy::app("Pair", vec![MTy::Var(0), MTy::Var(0)])), (0, MTy::app("Pair", vec![leaf(r), MTy::nullary("D")])), (0, MTy::app("Pair", vec![MTy::nullary("D"), leaf(r)]))];
+        if r.chance(40) {
+            hs.push((1, MTy::app("Pair", vec![MTy::app("Vec", vec![MTy::Var(0)]), MTy::Var(0)])));
+        }
+        if r.chance(30) {
+            hs.remove(0);
+        }
+        r.shuffle(&mut hs);
+        for (nv, h) in hs {
+            p.impls.push(MImpl { nvars: nv, head: MPred::new("T4", vec![h]), positive: true, ..Default::default() });
+        }
+        let mut rel = vec![MImpl { nvars: 1, head: MPred::new("T5", vec![MTy::Var(0), MTy::Var(0)]), positive: true, ..Default::default() }, MImpl { head: MPred::new("T5", vec![MTy::nullary("A"), MTy::nullary("B")]), positive: true, ..Default::default() }];
+        if r.chance(30) {
+            rel.remove(0);
+        }
+        r.shuffle(&mut rel);
+        p.impls.extend(rel);
+    }
+    // staged inference through the where-clauses of one impl: `T: T6` alone narrows T to `Vec<_>` without deciding it
+    // (its own where-clause has two solutions), `T: T8<V>` alone is ambiguous (two impls) but decides V once T is known
+    // to be a `Vec<_>`. Written in either order.
+    let staged = r.chance(35);
+    if staged {
+        p.traits.push(MTrait { name: "T6".into(), ..Default::default() });
+        p.traits.push(MTrait { name: "T7".into(), ..Default::default() });
+        p.traits.push(MTrait { name: "T8".into(), nparams: 1, ..Default::default() });
+        p.traits.push(MTrait { name: "T9".into(), nparams: 2, ..Default::default() });
+        let (b1, b2) = (MTy::nullary("B"), MTy::nullary("C"));
+        p.impls.push(MImpl { head: MPred::new("T7", vec![b1.clone()]), positive: true, ..Default::default() });
+        p.impls.push(MImpl { head: MPred::new("T7", vec![b2.clone()]), positive: true, ..Default::default() });
+        p.impls.push(MImpl { nvars: 1, head: MPred::new("T6", vec![MTy::app("Vec", vec![MTy::Var(0)])]), wheres: vec![MPred::new("T7", vec![MTy::Var(0)])], positive: true, ..Default::default() });
+        let mut sh = vec![MImpl { nvars: 1, head: MPred::new("T8", vec![MTy::app("Vec", vec![MTy::Var(0)]), b1.clone()]), positive: true, ..Default::default() }, MImpl { head: MPred::new("T8", vec![b1.clone(), b2.clone()]), positive: true, ..Default::default() }];
+        r.shuffle(&mut sh);
+        p.impls.extend(sh);
+        let mut wheres = vec![MPred::new("T6", vec![MTy::Var(0)]), MPred::new("T8", vec![MTy::Var(0), MTy::Var(1)])];
+        if r.chance(50) {
+            wheres.swap(0, 1);
+        }
+        if r.chance(30) {
+            wheres.push(MPred::new("T0", vec![MTy::nullary("D")]));
+            let k = r.below(wheres.len());
+            let n = wheres.len() - 1;
+            wheres.swap(k, n);
+        }
+        p.impls.push(MImpl { nvars: 2, head: MPred::new("T9", vec![MTy::nullary("D"), MTy::Var(0), MTy::Var(1)]), wheres, positive: true, ..Default::default() });
+    }
     let v = |i: usize| MTy::Var(i);
+    let mut extra: Vec<(MGoal, Vec<usize>)> = vec![];
+    if staged {
+        extra.push((MGoal::Exists(vec![0, 1], 0, Box::new(MGoal::Pred(MPred::new("T9", vec![MTy::nullary("D"), v(0), v(1)])))), vec![0, 1]));
+        extra.push((MGoal::Exists(vec![0, 1], 0, Box::new(MGoal::And(vec![MGoal::Pred(MPred::new("T6", vec![v(0)])), MGoal::Pred(MPred::new("T8", vec![v(0), v(1)]))]))), vec![0, 1]));
+        extra.push((MGoal::Exists(vec![0, 1], 0, Box::new(MGoal::And(vec![MGoal::Pred(MPred::new("T8", vec![v(0), v(1)])), MGoal::Pred(MPred::new("T6", vec![v(0)]))]))), vec![0, 1]));
+    }
+    if nonlinear {
+        let pair = |a: MTy, b: MTy| MTy::app("Pair", vec![a, b]);
+        let fnot = |vs: Vec<usize>, g: MGoal| MGoal::Not(Box::new(MGoal::Exists(vs, u32::MAX, Box::new(g))));
+        extra.push((MGoal::Exists(vec![0, 1], 0, Box::new(MGoal::Pred(MPred::new("T4", vec![pair(v(0), v(1))])))), vec![0, 1]));
+        extra.push((MGoal::Exists(vec![0, 1], 0, Box::new(MGoal::Pred(MPred::new("T5", vec![v(0), v(1)])))), vec![0, 1]));
+        extra.push((fnot(vec![7], MGoal::Pred(MPred::new("T4", vec![pair(v(7), v(7))]))), vec![]));
+        extra.push((fnot(vec![7, 8], MGoal::Pred(MPred::new("T4", vec![pair(v(7), v(8))]))), vec![]));
+        extra.push((fnot(vec![7], MGoal::Pred(MPred::new("T5", vec![v(7), v(7)]))), vec![]));
+        extra.push((fnot(vec![7], MGoal::Pred(MPred::new("T4", vec![pair(v(7), MTy::app("Bx", vec![v(7)]))]))), vec![]));
+        extra.push((MGoal::Exists(vec![0], 0, Box::new(MGoal::Pred(MPred::new("T4", vec![pair(v(0), MTy::nullary("D"))])))), vec![0]));
+        extra.push((MGoal::Pred(MPred::new("T4", vec![pair(MTy::nullary("A"), MTy::nullary("A"))])), vec![]));
+    }
     let pool: Vec<(MGoal, Vec<usize>)> = vec![
         (MGoal::Exists(vec![0], 0, Box::new(MGoal::Pred(MPred::new("T0", vec![v(0)])))), vec![0]),
         (MGoal::Exists(vec![0], 0, Box::new(MGoal::And(vec![MGoal::Pred(MPred::new("T0", vec![v(0)])), MGoal::Pred(MPred::new("T1", vec![v(0)]))]))), vec![0]),
@@ -204,7 +274,12 @@ pub fn gen_multi_answer(r: &mut Rng) -> (MProgram, Vec<(MGoal, Vec<usize>)>) {
         (MGoal::Forall(1, 1, Box::new(MGoal::Exists(vec![0], 1, Box::new(MGoal::Pred(MPred::new("T0", vec![v(0)])))))), vec![0]),
         (MGoal::Exists(vec![0], 0, Box::new(MGoal::Pred(MPred::new("T2", vec![v(0), leaf(r)])))), vec![0]),
     ];
-    (p, pool)
+    // the non-linear goals first, then as many of the general ones as the caller takes
+    let mut pool = pool;
+    r.shuffle(&mut pool);
+    r.shuffle(&mut extra);
+    extra.extend(pool);
+    (p, extra)
 }
 
 /// "Propositional" programs: every impl is on the single nullary struct `S`, so the program is a random
